@@ -375,6 +375,12 @@ func hotFrame(dump, rpc string) string {
 	if strings.HasPrefix(best, "internal/listobjects/pipeline") {
 		return "internal/listobjects/pipeline"
 	}
+	// the reducers of the Check resolution tree all sit on top of runHandler
+	for _, f := range []string{"internal/graph.union", "internal/graph.intersection", "internal/graph.exclusion", "internal/graph.runHandler"} {
+		if best == f || strings.HasPrefix(best, f+".") {
+			return "internal/graph.runHandler"
+		}
+	}
 	return best
 }
 
